@@ -12,8 +12,9 @@ import gen
 import lib
 
 
-def bulk_job(jid, how, entries, hasher, doc="", pool=1, hint="exact"):
-    return {"id": jid, "kind": "bulk", "hasher": hasher, "bulk": {"how": how, "entries": entries, "doc": doc, "pool": pool, "hint": hint}}
+def bulk_job(jid, how, entries, hasher, doc="", pool=1, hint="exact", pre=None):
+    return {"id": jid, "kind": "bulk", "hasher": hasher,
+            "bulk": {"how": how, "entries": entries, "doc": doc, "pool": pool, "hint": hint, "pre": pre or []}}
 
 
 RAW_DOCS = ["{}", "[]", "{\"1\":\"x\"}", "{\"a\":1}", "{\"1\":1.5}", "{\"1\":null}", "[1,2,\"x\"]", "{\"1\":1,\"1\":\"x\"}",
@@ -49,6 +50,9 @@ def make_jobs(tier, seed):
             for pool in (1, 2, 4):
                 how = ["par_extend_map", "from_par_iter_map", "par_extend_mapref", "par_extend_set", "from_par_iter_set"][n % 5]
                 add(how, [list(e) for e in es], pool=pool)
+            # the same items extending a collection that already holds some of the keys
+            for pre in ([[1, 7]], [[3, 8], [1, 9]]):
+                add(["par_extend_map", "par_extend_mapref", "par_extend_set"][n % 3], [list(e) for e in es], pool=[1, 2, 4][n % 3], pre=pre)
     # larger random ones (resizes and tree bins inside the parallel paths)
     for i in range(60 if tier == "quick" else 1000):
         es = [[rng.randint(1, 60), rng.randint(1, 5)] for _ in range(rng.randint(20, 200))]
@@ -58,7 +62,7 @@ def make_jobs(tier, seed):
 
 def project(trace, job):
     b = job["bulk"]
-    e = {"how": b["how"], "entries": b["entries"], "raw": 1 if b["doc"] else 0, "outcome": trace.get("outcome", "panic"),
+    e = {"how": b["how"], "entries": b["entries"], "pre": b.get("pre", []), "raw": 1 if b["doc"] else 0, "outcome": trace.get("outcome", "panic"),
          "items": trace.get("items", []), "orig": trace.get("orig", []), "eq": trace.get("eq", 0), "len": trace.get("len", 0)}
     return {"id": trace["id"], "ev": [e]}
 
